@@ -450,6 +450,13 @@ func registerExterns(w *World) {
 		st.assume("(>= " + e + " 0)")
 		c.k(st, term(e, types.Universe.Lookup("error").Type()))
 	})
+	w.ext("(*os.File).Fd", "File.Fd: opaque descriptor number; documented side effect: the descriptor is put into blocking mode, after which Close from another goroutine no longer interrupts a parked Read — recorded as a non-cancellable blocking effect", func(ex *Exec, st *State, c *callCtx) {
+		ex.nilCheckTerm(st, c.args[0].T, c.site)
+		if !st.dry {
+			ex.blocking = append(ex.blocking, blockingOp{Site: c.site, Kind: "fd-blocking-mode", Cancellable: false, Note: "(*os.File).Fd switches the descriptor to blocking mode: closing the file no longer wakes a blocked read on it"})
+		}
+		c.k(st, term(ex.fresh("fd", "Int"), c.fn.Signature.Results().At(0).Type()))
+	})
 	w.ext("(*os.File).Name", "File.Name: opaque", func(ex *Exec, st *State, c *callCtx) {
 		c.k(st, term(ex.fresh("fname", "String"), tString))
 	})
@@ -463,12 +470,25 @@ func registerExterns(w *World) {
 		st.setRegion("G!rdrec", arr("Int", "Int"), store(gr, r, "0"))
 		gg := st.region("G!rdgood", arr("Int", "Int"))
 		st.setRegion("G!rdgood", arr("Int", "Int"), store(gg, r, "0"))
+		st.setRegion("G!rdpart", arr("Int", "String"), store(st.region("G!rdpart", arr("Int", "String")), r, "\"\""))
 		st.setRegion("G!rdlast", "Int", r)
 		st.setRegion("G!rdcount", "Int", "(+ "+st.region("G!rdcount", "Int")+" 1)")
 		c.k(st, term(r, c.fn.Signature.Results().At(0).Type()))
 	})
 	w.ext("(*bufio.Reader).ReadString", bufioDoc, externReadString)
-	w.ext("path/filepath.Join", "filepath.Join: opaque string", externPure)
+	w.ext("(*bufio.Reader).ReadBytes", bufioDoc+" ReadBytes is ReadString returning a fresh byte slice with the same content.", externReadString)
+	w.ext("(*bufio.Reader).ReadSlice", bufioSliceDoc, externReadSlice)
+	w.ext("path/filepath.Join", "filepath.Join(a, b): an uninterpreted function pathjoin of its two arguments (other arities: opaque string)", func(ex *Exec, st *State, c *callCtx) {
+		if len(c.args) == 1 && c.args[0].K == KSlice {
+			if n, ok := isIntLit(c.args[0].Fs[2].T); ok && n == 2 {
+				ex.declareFunRaw("pathjoin", "(String String) String")
+				a, b := st.sliceGet(c.args[0], "0"), st.sliceGet(c.args[0], "1")
+				c.k(st, term("(pathjoin "+a.T+" "+b.T+")", tString))
+				return
+			}
+		}
+		externPure(ex, st, c)
+	})
 	w.iext("io/fs.DirEntry.IsDir", "DirEntry.IsDir(): uninterpreted function of the entry", func(ex *Exec, st *State, c *callCtx) {
 		ex.nilCheckTerm(st, c.args[0].T, c.site)
 		c.k(st, term(sel(st.region("G!dirent_isdir", arr("Int", "Bool")), c.args[0].T), tBool))
@@ -492,6 +512,7 @@ func registerExterns(w *World) {
 	}
 	// ---- go-libaudit (dependency: assumed contracts)
 	w.ext("github.com/elastic/go-libaudit/v2.NewReassembler", "NewReassembler: (reassembler, err) with exactly one of them nil; the stream callback is retained", func(ex *Exec, st *State, c *callCtx) {
+		ex.assertAt(st, "NewReassembler", map[string]Val{"stream": c.args[2]})
 		r, e := oneOf(ex, st, c, "reass")
 		g := st.region("G!reassstream", arr("Int", "Int"))
 		st.setRegion("G!reassstream", arr("Int", "Int"), store(g, r, c.args[2].T))
@@ -620,7 +641,65 @@ func externReadString(ex *Exec, st *State, c *callCtx) {
 		ex.blocking = append(ex.blocking, blockingOp{Site: c.site, Kind: "external", Cancellable: false, Note: "bufio.Reader.ReadString (blocking read)"})
 	}
 	rt := c.fn.Signature.Results()
-	c.k(st, Val{K: KTuple, Fs: []Val{term(line, rt.At(0).Type()), term(e, rt.At(1).Type())}})
+	c.k(st, Val{K: KTuple, Fs: []Val{ex.lineResult(st, line, rt.At(0).Type()), term(e, rt.At(1).Type())}})
+}
+
+// lineResult wraps the string term of a line as the call's result type (string, or a fresh []byte with that ghost content).
+func (ex *Exec) lineResult(st *State, line string, t types.Type) Val {
+	if !isSliceT(t) {
+		return term(line, t)
+	}
+	id := st.allocRef("bytes")
+	bs := st.region("G!bytestr", arr("Int", "String"))
+	st.setRegion("G!bytestr", arr("Int", "String"), store(bs, id, line))
+	return Val{K: KSlice, Typ: t, Fs: []Val{term(id, tInt), term("0", tInt), term("(str.len "+line+")", tInt)}}
+}
+
+const bufioSliceDoc = "bufio.Reader.ReadSlice(d) over the byte stream B behind the reader: returns (chunk, nil) where chunk ends with the first d at or after pos; or (chunk, bufio.ErrBufferFull) with a non-empty chunk that contains no d (the record continues: the following chunks up to the next nil error concatenate to the record); or (rest, other error) with no d in it. The bytes are only valid until the next read (the model hands out a copy: aliasing of the internal buffer is NOT modelled)."
+
+// externReadSlice: like ReadString, but a record may come back in several pieces (G!rdpart[r] accumulates the pieces of the
+// record in progress); the k-th record of the stream equals the concatenation of the pieces.
+func externReadSlice(ex *Exec, st *State, c *callCtx) {
+	r := c.args[0].T
+	d := c.args[1].T
+	line := ex.fresh("chunk", "String")
+	e := ex.fresh("rderr", "Int")
+	st.assume("(>= " + e + " 0)")
+	dch := "(str.from_code " + d + ")"
+	body := ex.fresh("chunkbody", "String")
+	st.assume(not("(str.contains " + body + " " + dch + ")"))
+	st.assume(ite(eq(e, "0"), eq(line, "(str.++ "+body+" "+dch+")"), eq(line, body)))
+	st.assume(implies(not(eq(e, "0")), sel(st.region("A", arr("Int", "Bool")), e)))
+	full := "0"
+	for g, id := range ex.w.errGlobals {
+		if g.Pkg.Pkg.Path() == "bufio" && g.Name() == "ErrBufferFull" {
+			full = strconv.Itoa(id)
+		}
+	}
+	if full == "0" {
+		panic(subsetErr{"bufio.ErrBufferFull not found"})
+	}
+	st.assume(implies(eq(e, full), "(> (str.len "+line+") 0)"))
+	nrec := st.region("G!rdrec", arr("Int", "Int"))
+	k := sel(nrec, r)
+	recs := st.region("G!rdstream", arr("Int", arr("Int", "String")))
+	part := st.region("G!rdpart", arr("Int", "String"))
+	acc := "(str.++ " + sel(part, r) + " " + line + ")"
+	st.assume(implies(eq(e, "0"), eq(acc, sel(sel(recs, r), k))))
+	st.setRegion("G!rdpart", arr("Int", "String"), store(part, r, ite(eq(e, "0"), "\"\"", acc)))
+	st.setRegion("G!rdrec", arr("Int", "Int"), store(nrec, r, ite(eq(e, "0"), "(+ "+k+" 1)", k)))
+	good := st.region("G!rdgood", arr("Int", "Int"))
+	st.setRegion("G!rdgood", arr("Int", "Int"), store(good, r, ite(eq(e, "0"), "(+ "+sel(good, r)+" (str.len "+acc+"))", sel(good, r))))
+	st.assume("(<= " + sel(st.region("G!rdgood", arr("Int", "Int")), r) + " 4611686018427387904)")
+	pos := st.region("G!rdpos", arr("Int", "Int"))
+	st.setRegion("G!rdpos", arr("Int", "Int"), store(pos, r, "(+ "+sel(pos, r)+" (str.len "+line+"))"))
+	ge := st.region("G!rdlasterr", arr("Int", "Int"))
+	st.setRegion("G!rdlasterr", arr("Int", "Int"), store(ge, r, e))
+	if !st.dry {
+		ex.blocking = append(ex.blocking, blockingOp{Site: c.site, Kind: "external", Cancellable: false, Note: "bufio.Reader.ReadSlice (blocking read)"})
+	}
+	rt := c.fn.Signature.Results()
+	c.k(st, Val{K: KTuple, Fs: []Val{ex.lineResult(st, line, rt.At(0).Type()), term(e, rt.At(1).Type())}})
 }
 
 // ---------------------------------------------------------------------------------------------
